@@ -736,14 +736,29 @@ async fn run_history_async(h: History, mut opts: RunOpts, tp: Arc<ThreadPool>) -
                 }
             }
         } else {
+            let mut aborted = false;
             for (fi, f) in s.files.iter().enumerate() {
+                if aborted {
+                    // the caller stops at the first error, as the library's own upload driver does
+                    results[fi] = Some((0, None, Err("not cleaned: the caller aborted after an earlier error".into())));
+                    continue;
+                }
                 let r = clean_one(session.clone(), format!("f{fi}"), prepared[fi].0.clone(), f.feed.clone(), conf.target(), vec![]).await;
+                aborted = r.1.is_some() || r.2.is_err();
                 results[fi] = Some(r);
             }
         }
-        client.mark("finalize-start");
-        let finalize = session.finalize_with_file_info().await.map_err(|e| e.to_string());
-        client.mark("finalize-end");
+        let caller_saw_error = results.iter().any(|r| r.as_ref().map(|x| x.1.is_some() || x.2.is_err()).unwrap_or(true));
+        let finalize = if caller_saw_error {
+            // a caller that got an error from add_data / finish does not finalize the session
+            drop(session);
+            Err("not finalized: the caller aborted after an error from add_data / finish".to_string())
+        } else {
+            client.mark("finalize-start");
+            let r = session.finalize_with_file_info().await.map_err(|e| e.to_string());
+            client.mark("finalize-end");
+            r
+        };
         let log = std::mem::take(&mut *client.log.lock().unwrap());
         let files: Vec<FileObs> = results
             .into_iter()
